@@ -28,23 +28,20 @@ Variable junk : C.
        "Missing index" of the third loop (which is dead code); no well-formedness needed --- *)
 Theorem C15_rejects : forall p, ~ is_permN p (t_ndim t) ->
   exists e, permute_checked junk t p = (Some e, t) /\ e <> ErrMissing.
-Proof. exact (checked_rejects K E C t true junk). Qed.
+Proof. exact (thm_rejects K E C t junk). Qed.
 
 Theorem C15_accepts : forall p, is_permN p (t_ndim t) ->
   permute_checked junk t p = (None, permute junk t (map N.to_nat p)).
-Proof. exact (checked_accepts K E C t true junk). Qed.
+Proof. exact (thm_accepts K E C t junk). Qed.
 
 Theorem C15_wrong_length_class : forall p, fst (permute_checked junk t p) = Some ErrLength <-> length p <> t_ndim t.
-Proof.
-  intros p. unfold permute_checked, permute_checked_gen. rewrite <- validate_length.
-  destruct (validate (t_ndim t) p); cbn [fst]; tauto.
-Qed.
+Proof. exact (thm_wrong_length_class K E C t junk). Qed.
 
 (* the C wrapper reads exactly ndim entries; return code 0 and the permuted table, or 1 and the table untouched *)
 Theorem C15_c_wrapper : forall p,
   (is_permN (firstn (t_ndim t) p) (t_ndim t) -> c_permute junk t p = (0, permute junk t (map N.to_nat (firstn (t_ndim t) p)))) /\
   (~ is_permN (firstn (t_ndim t) p) (t_ndim t) -> c_permute junk t p = (1, t)).
-Proof. exact (c_permute_spec K E C t junk). Qed.
+Proof. exact (thm_c_wrapper K E C t junk). Qed.
 
 Variable p : list N.
 Hypothesis Hp : is_permN p (t_ndim t).
@@ -57,21 +54,13 @@ Let t' := snd (permute_checked junk t p).
 Theorem C15_coeff_relocated : forall m, in_shape (t_naxes t) m ->
   (Z.to_nat (flat (t_naxes t) m) < length (t_coeffs t))%nat /\
   nth_error (t_coeffs t') (Z.to_nat (flat (t_naxes t') (pick pn m 0))) = nth_error (t_coeffs t) (Z.to_nat (flat (t_naxes t) m)).
-Proof.
-  intros m Hm. unfold t', permute_checked. rewrite (checked_accepts K E C t true junk p Hp). cbn [snd].
-  exact (coeff_relocated K E C t Hwf pn Hp junk m Hm).
-Qed.
+Proof. exact (thm_coeff_relocated K E C t Hwf junk p Hp). Qed.
 
 Theorem C15_coeff_permutation : Permutation (t_coeffs t) (t_coeffs t').
-Proof.
-  unfold t', permute_checked. rewrite (checked_accepts K E C t true junk p Hp). cbn [snd]. exact (coeff_Permutation K E C t Hwf pn Hp junk).
-Qed.
+Proof. exact (thm_coeff_permutation K E C t Hwf junk p Hp). Qed.
 
 Theorem C15_junk_irrelevant : forall junk2, permute_checked junk2 t p = permute_checked junk t p.
-Proof.
-  intros junk2. unfold permute_checked. rewrite !(checked_accepts K E C t true _ p Hp). f_equal.
-  exact (junk_irrelevant K E C t Hwf pn Hp true junk2 junk).
-Qed.
+Proof. exact (thm_junk_irrelevant K E C t Hwf junk p Hp). Qed.
 
 (* --- every per-dimension attribute appears in the new order; strides are row-major for the new shape; the
        result is again a well-formed table of the same dimension --- *)
@@ -85,27 +74,20 @@ Theorem C15_attributes : forall i, (i < t_ndim t)%nat ->
   | None => t_periods t' = None
   | Some l => exists l', t_periods t' = Some l' /\ length l' = t_ndim t /\ nth_error l' i = nth_error l (nth i pn 0%nat)
   end.
-Proof.
-  intros i Hi. unfold t', permute_checked. rewrite (checked_accepts K E C t true junk p Hp). cbn [snd].
-  exact (attributes K E C t Hwf pn Hp junk i Hi).
-Qed.
+Proof. exact (thm_attributes K E C t Hwf junk p Hp). Qed.
 
 Theorem C15_shape : t_ndim t' = t_ndim t /\ t_strides t' = strides (t_naxes t') /\ wf_table t'.
-Proof.
-  unfold t', permute_checked. rewrite (checked_accepts K E C t true junk p Hp). cbn [snd].
-  pose proof (body_wf K E C t Hwf pn Hp true junk) as W.
-  split; [reflexivity|]. split; [apply (wf_strides _ _ _ _ W)|exact W].
-Qed.
+Proof. exact (thm_shape K E C t Hwf junk p Hp). Qed.
 
 (* --- applying the inverse permutation restores a table EQUAL to the original (every member) --- *)
 Theorem C15_inverse :
   permute_checked junk t' (map N.of_nat (inverse_perm (t_ndim t) pn)) = (None, t).
-Proof. exact (checked_inverse K E C t junk p Hwf Hp). Qed.
+Proof. exact (thm_inverse K E C t Hwf junk p Hp). Qed.
 
 (* the inverse vector is the one with q[p[k]] = k, and it is a permutation itself *)
 Theorem C15_inverse_vector : is_perm (inverse_perm (t_ndim t) pn) (t_ndim t) /\
   forall k, (k < t_ndim t)%nat -> nth (nth k pn 0%nat) (inverse_perm (t_ndim t) pn) 0%nat = k.
-Proof. split; [apply inverse_perm_is_perm; exact Hp|apply inverse_perm_spec; exact Hp]. Qed.
+Proof. exact (thm_inverse_vector K E C t p Hp). Qed.
 
 End C15.
 
@@ -137,6 +119,44 @@ Proof.
   - vm_compute. reflexivity.
 Qed.
 
+
+(* --- same function.  Evaluation is specified (C01) as the sum over ALL stored coefficients of
+       c[pos] * prod_i B_i(digit_i pos), where B_i k is the value of the k-th basis function of axis i at the i-th
+       coordinate ([tensor_eval], C15_Proofs.v).  Over any commutative semiring (in particular any field: exact
+       rationals, reals) the permuted table evaluated with the permuted per-axis basis values (new axis i uses the
+       knots and the coordinate of old axis p_i) gives the same value: a reordering of a finite sum of finite
+       products.  On IEEE floats the products are reordered, so equality holds only up to rounding: that part is
+       checked against the exact value on every run, not proved. --- *)
+Section C15_function.
+Variable R : Type.
+Variables (rO rI : R) (radd rmul : R -> R -> R).
+Hypothesis Rth : Ring_theory.semi_ring_theory rO rI radd rmul (@eq R).
+Variables K E : Type.
+Variable t : table K E R.
+Hypothesis Hwf : wf_table t.
+Variable p : list N.
+Hypothesis Hp : is_permN p (t_ndim t).
+Variable junk : R.
+Variable B : nat -> Z -> R.
+
+Theorem C15_same_function :
+  let t' := snd (permute_checked junk t p) in
+  tensor_eval R rO rI radd rmul (t_ndim t) (t_naxes t') (t_coeffs t') (fun i => B (nth i (map N.to_nat p) 0%nat)) =
+  tensor_eval R rO rI radd rmul (t_ndim t) (t_naxes t) (t_coeffs t) B.
+Proof. exact (thm_same_function R rO rI radd rmul Rth K E t Hwf p Hp junk B). Qed.
+End C15_function.
+
+(* the hypotheses of C15_same_function are satisfiable: the integers form a commutative semiring, and on the example
+   table the two sums are the same number (basis values B i k := 10 i + k + 1) *)
+Definition Z_srt : Ring_theory.semi_ring_theory 0 1 Z.add Z.mul (@eq Z) :=
+  Ring_theory.mk_srt 0 1 Z.add Z.mul (@eq Z) Z.add_0_l Z.add_comm Z.add_assoc Z.mul_1_l Z.mul_0_l Z.mul_comm Z.mul_assoc Z.mul_add_distr_r.
+Example C15_same_function_example :
+  let B := fun (i : nat) (k : Z) => 10 * Z.of_nat i + k + 1 in
+  tensor_eval Z 0 1 Z.add Z.mul 2 (t_naxes ex_t) (t_coeffs ex_t) B = 2022 /\
+  tensor_eval Z 0 1 Z.add Z.mul 2 (t_naxes (snd (permute_checked (-1) ex_t ex_p))) (t_coeffs (snd (permute_checked (-1) ex_t ex_p)))
+              (fun i => B (nth i (map N.to_nat ex_p) 0%nat)) = 2022.
+Proof. split; vm_compute; reflexivity. Qed.
+
 (* regression example about the code AS FOUND (permute_checked_v0 = permute.h before fix C15_1): periods were not
    permuted, so the attribute clause of the property was false; replayed on the real code as
    corpus/C15/D11_periods_2d_swap.json *)
@@ -159,5 +179,7 @@ Print Assumptions C15_attributes.
 Print Assumptions C15_shape.
 Print Assumptions C15_inverse.
 Print Assumptions C15_inverse_vector.
+Print Assumptions C15_same_function.
+Print Assumptions C15_same_function_example.
 Print Assumptions C15_refuted_periods_v0.
 Print Assumptions C15_hypotheses_satisfiable.
